@@ -49,6 +49,7 @@ def run(prog, chk):
     chk.rule(axis_consistency, prog, chk)
     chk.rule(constraint_algebra, prog, chk)
     chk.rule(single_tokenizer, prog, chk)
+    chk.rule(number_reader_rejects_only_what_parse_rejects, prog, chk)
     from props import geomalg
     chk.rule(geomalg.check_sites, prog, chk, "C11")
     chk.rule(geomalg.check_float_truncation, prog, chk)  # no float is cut down to an integer on the way (a truncated distance / coordinate makes different candidates tie)
@@ -440,6 +441,23 @@ def constraint_algebra(prog, chk):
             chk.ob(not wrong and len(axes) == 1, "A15.constraint-wiring", key, b.where(line=mc.get("line")), f"{mc['name']}() receives {sorted(axes)}-axis fields in their own roles", f"{b.short}: {mc['name']}() is called with {wrong or 'fields of both axes ' + str(sorted(axes))}")
     if n_calls == 0:
         chk.undecided("A15.constraint-wiring", "calls", "src/position.rs", "no call of Position::extent / three_point by those names; decided by the A17 site position-to-bbox")
+
+
+def number_reader_rejects_only_what_parse_rejects(prog, chk):
+    """strp() is `trim` + `str::parse::<f32>`: the only way it fails is the parse failing.  A rejection written out
+    in strp itself (an `Err(..)` built there, outside the closure that converts the parse error) turns away spellings
+    the f32 grammar accepts - `.5`, `+5`, `1e3` - and with them every attribute value written that way"""
+    b = prog.maybe_body("svgdx::types::strp")
+    if b is None:
+        chk.anchor_missing("A13.number-reader", "types::strp not found")
+        return
+    chk.touch(b)
+    parses = b.call_sites(lambda c: c.path.endswith("<impl str>::parse") and ("f32" in c.inst or "f64" in c.inst))
+    own_errs = [x for x, i, s_ in b.all_stmts() if s_.get("rv", {}).get("k") == "aggr" and s_["rv"].get("adt") == "std::result::Result" and s_["rv"].get("variant") == "Err"]
+    if not parses:
+        chk.undecided("A13.number-reader", "strp", b.where(), "strp() does not call str::parse::<f32>: how it reads a number is not read here")
+        return
+    chk.ob(not own_errs, "A13.number-reader", "strp", b.where(own_errs[0]) if own_errs else b.where(), "strp() fails only where str::parse::<f32> fails (no rejection of its own)", f"strp() builds an error of its own ({', '.join(b.where(x) for x in own_errs[:3])}) besides the failure of str::parse::<f32>: spellings the f32 grammar accepts (`.5`, `+5`, `1e3`) are turned away, and a shape whose geometry is written that way is no longer positioned")
 
 
 def single_tokenizer(prog, chk):
